@@ -375,6 +375,32 @@ func (lc *LinkCtx) Default(m message.Message, unrel bool) {
 	}
 }
 
+// Reply builds (and registers the state for) the cooperative response to a request message without sending it.
+// It returns nil for messages that have no single response (chunks, acks, pings are handled by Default).
+func (lc *LinkCtx) Reply(m message.Message) message.Message {
+	switch t := m.(type) {
+	case *message.UpstreamOpenRequest:
+		return lc.OpenUpstream(t)
+	case *message.UpstreamResumeRequest:
+		return lc.ResumeUpstream(t)
+	case *message.UpstreamCloseRequest:
+		return lc.CloseUpstream(t)
+	case *message.UpstreamMetadata:
+		return &message.UpstreamMetadataAck{RequestID: t.RequestID, ResultCode: message.ResultCodeSucceeded, ResultString: "OK"}
+	case *message.DownstreamOpenRequest:
+		return lc.OpenDownstream(t)
+	case *message.DownstreamResumeRequest:
+		return lc.ResumeDownstream(t)
+	case *message.DownstreamCloseRequest:
+		return lc.CloseDownstream(t)
+	case *message.UpstreamCall:
+		return &message.UpstreamCallAck{CallID: t.CallID, ResultCode: message.ResultCodeSucceeded, ResultString: "OK"}
+	case *message.Ping:
+		return &message.Pong{RequestID: t.RequestID}
+	}
+	return nil
+}
+
 // OpenUpstream registers a new upstream and builds the response.
 func (lc *LinkCtx) OpenUpstream(t *message.UpstreamOpenRequest) *message.UpstreamOpenResponse {
 	b := lc.B
